@@ -163,7 +163,16 @@ def coq_build(clean=False, timeout=3000):
             rc, out, _ = sh("coq_makefile -f _CoqProject -o Makefile.coq", cwd=COQ)
             if rc != 0:
                 return False, out, time.time() - t0
-        rc, out, _ = sh("timeout %d make -f Makefile.coq -j16 2>&1" % timeout, cwd=COQ, timeout=timeout + 30)
+        rc, out, _ = sh("timeout %d make -k -f Makefile.coq -j16 2>&1" % timeout, cwd=COQ, timeout=timeout + 30)
+        if rc != 0:
+            # never leave a stale .vo behind for a file that no longer compiles: anything that depends
+            # on it must fail too
+            for m in re.finditer(r"\*\*\* \[[^\]]*?:\s*(theories/[\w/]+)\.vo\]", out):
+                for ext in (".vo", ".vok", ".vos", ".glob"):
+                    try:
+                        os.unlink(os.path.join(COQ, m.group(1) + ext))
+                    except OSError:
+                        pass
         return rc == 0, out, time.time() - t0
 
 
@@ -240,15 +249,9 @@ def proof_step(prop, tier):
     r["theorems"] = thms
     r["obligations"] = len(thms)
     if not ok:
-        # name the first file / lemma that failed
-        m = re.search(r'File "([^"]+)", line (\d+)', log)
-        r["failed"] = (m.group(1) + ":" + m.group(2)) if m else "coq build"
-        r["log_tail"] = log[-3000:]
-        # theorems of this property are discharged only if its Props file compiled
-        if os.path.exists(os.path.join(COQ, "theories", "Props", prop + ".vo")) and (not m or ("Props/" + prop + ".v") not in m.group(1)):
-            pass
-        r["secs"] = time.time() - t0
-        # is the failure in the dependency cone of this property?  Try compiling the Props file alone.
+        # some file of the development does not compile; whether that concerns this property is decided
+        # by compiling its Props file (the .vo of every failed file has been removed)
+        r["build_log_tail"] = log[-1500:]
     rc, out, _ = coqc_file(os.path.join("theories", "Props", prop + ".v"))
     if rc != 0:
         m = re.search(r'File "([^"]+)", line (\d+)', out)
